@@ -71,8 +71,12 @@ DocsOK(c) == \A x \in 1..Len(c.store) : c.store[x].doc.t = "unspec" \/ RenderJso
 
 Verdict(c) ==
   LET main == Runs(c, "main")
-      all  == main \o Runs(c, "expanded") \o Runs(c, "unfolded")
+      expl == Runs(c, "explained")        \* the plan's printed filter put back into a statement (C15: "the filter shown by EXPLAIN is the filter executed")
+      all  == main \o Runs(c, "expanded") \o Runs(c, "unfolded") \o expl
   IN IF ~SortedStore(c.store) \/ ~DocsOK(c) THEN "infra-bad-store-in-record"
+     \* (the optimised filter may hold what the language cannot write - a bare true under `or`, a negative number: then it
+     \* is refused and nothing is judged; when it is accepted it must select the same rows)
+     ELSE IF ~Agree(c, expl \o (IF main = <<>> THEN <<>> ELSE <<main[1]>>)) THEN "explained-filter-selects-other-rows"
      ELSE IF "agree" \in c.checks /\ ~Agree(c, all) THEN "runs-disagree"
      ELSE IF "agree" \in c.checks /\ ~BatchImpliesRow(main) THEN "batch-completes-but-row-fails"
      ELSE IF "shape" \in c.checks /\ ~Shape(c, all) THEN "row-width-differs-from-field-list"
@@ -83,7 +87,7 @@ Verdict(c) ==
      ELSE IF \E x \in 1..Len(c.runs) : c.runs[x].role = "faulted" /\ ~(c.runs[x].phase = "failed" /\ c.runs[x].errkind = "fault") THEN "storage-error-not-surfaced"
      ELSE IF "contract" \in c.checks THEN
           LET base == BaseRows(c.stmt, c.store) IN
-          IF ErrExpectedB(c.stmt, c.store, base) /\ ~c.stmt.lim.has /\ ~IsAggStmt(c.stmt) THEN
+          IF ErrExpectedB(c.stmt, c.store, base) /\ ~c.stmt.lim.has /\ (~IsAggStmt(c.stmt) \/ c.stmt.order = <<>>) THEN
                (IF \A x \in 1..Len(main) : main[x].phase \in {"failed", "rejected"} THEN "ok" ELSE "documented-failure-not-reported")   \* refused when built (a literal zero divisor) or when run
           ELSE IF ~ModelledB(c.stmt, c.store, base) THEN "unmodelled"
           ELSE IF ~Contract(c, base, main) THEN "differs-from-contract" ELSE "ok"
